@@ -126,18 +126,23 @@ bool String::load(std::istream &in, Context&) {
 
     in >> s;
     if (in.fail()) return false;
-    size_t length = std::stoul(s, nullptr);
-
-    char *buf = new char[length];
-    in.ignore(1); // whitespace
-    in.read(buf, length);
-    value.clear();
-    value.reserve(length);
-    for (size_t i = 0; i < length; i++) {
-        if (i > 0 && buf[i] == '#' && buf[i-1] == '\n') continue;
-        value += buf[i];
+    if (s.empty() || s.find_first_not_of("0123456789") != std::string::npos) return false;
+    size_t length;
+    try {
+        length = std::stoul(s, nullptr);
+    } catch (const std::out_of_range&) {
+        return false;
     }
-    delete[] buf;
+
+    in.ignore(1); // whitespace
+    value.clear();
+    char prev = 0;
+    for (size_t i = 0; i < length; i++) {
+        int c = in.get();
+        if (c == std::istream::traits_type::eof()) return false;
+        if (!(i > 0 && c == '#' && prev == '\n')) value += (char) c;
+        prev = (char) c;
+    }
 
     return true;
 }
